@@ -310,15 +310,24 @@ variable {n m : Nat} {nb : Nbrs} {rf : Nat} {r : IR.St}
 
 set_option linter.unusedVariables false in
 include hnb hA hD in
-/-- a leaf with the certificate of the first leaf (not of the best): back-jump against `flPath` -/
-theorem dfs_leaf_eqfirst (lv : List (Nat × Nat)) (s s1 : LS) (gh : Gh) (hI : MInv n m nb s)
+/-- a leaf with the certificate of the first leaf (not of the best): back-jump against `flPath`; the ghost update and the
+new orbit / generator data explicit -/
+theorem dfs_leaf_eqfirst_v (lv : List (Nat × Nat)) (s s1 : LS) (gh : Gh) (hI : MInv n m nb s)
     (hlv : LevelsOK s.op s.path s.choices lv) (hleaf : s.op.binDividers.len = n)
     (hJ : CertM n m nb lv false s) (h : DNodev n nb rf r gh lv s) (hs1 : leafNode n m s = .ok s1)
     (hJ1 : CertA n m nb lv s1)
     (hc1 : (compare s.op.value.toList s.currentBest.toList == 1 || s.count + 1 == 1) = false)
     (hc0 : (compare s.op.value.toList s.currentBest.toList == 0) = false)
     (hcf : (compare s.op.value.toList s.firstLeaf.toList == 0) = true) :
-    ∃ lv1, LevelsOK s1.op s1.path s1.choices lv1 ∧ DA n nb rf r lv1 s1 := by
+    ∃ lv1 k, LevelsOK s1.op s1.path s1.choices lv1 ∧ DAv n nb rf r { gh with vs := gh.vs.take k } lv1 s1 ∧
+      ∃ flOrbits' merges gens' ngens',
+        forRange (orbitStep s.op.order s.flPermInv) n 0 (s.flOrbits, false) = .ok (flOrbits', merges) ∧
+        (if merges = true then recordGenerator n s.op.order s.flPermInv s.gens s.ngens else Outcome.ok (s.gens, s.ngens))
+          = .ok (gens', ngens') ∧
+        s1.flOrbits = flOrbits' ∧ s1.gens = gens' ∧ s1.ngens = ngens' ∧ s1.count = s.count + 1 ∧
+        s1.currentBest = s.currentBest ∧ s1.firstLeaf = s.firstLeaf ∧ s1.bestPerm = s.bestPerm ∧
+        s1.bestOrbits = s.bestOrbits ∧ s1.flPermInv = s.flPermInv ∧ s1.bestPermInv = s.bestPermInv ∧
+        s1.flPath = s.flPath ∧ s1.bestPath = s.bestPath := by
   obtain ⟨hw, hG, hcov, haux, hoff⟩ := h
   have hw' := hw
   obtain ⟨h1, h2, h3, h4, h5, h6, h7⟩ := hw'
@@ -426,7 +435,9 @@ theorem dfs_leaf_eqfirst (lv : List (Nat × Nat)) (s s1 : LS) (gh : Gh) (hI : MI
     simp only [List.length_cons] at hL
     exact take_take_le gh.vs (by omega)
   have hpos1 : 0 < s1.count := by omega
-  refine ⟨lv.drop j, ?_, { gh with vs := gh.vs.take (s.path.length - j - 1) }, ?_, ?_, ?_, ?_, ?_⟩
+  refine ⟨lv.drop j, s.path.length - j - 1, ?_, ⟨?_, ?_, ?_, ?_, ?_⟩,
+    flO, merges, gens', ngens', hloop, hrec, eflo, egens, engens, ecount, ecb, by rw [hs'], by rw [hs'], by rw [hs'],
+    by rw [hs'], by rw [hs'], eflp, by rw [hs']⟩
   · rw [eop, epath, ech]
     apply LevelsOK_frame q4 _ _ _ _ (LevelsOK_drop j _ _ _ hlv)
     simp only [List.length_drop]; rw [hI.age]; omega
@@ -451,6 +462,20 @@ theorem dfs_leaf_eqfirst (lv : List (Nat × Nat)) (s s1 : LS) (gh : Gh) (hI : MI
   · intro hp0
     rw [epath, hpd] at hp0
     cases hp0
+
+set_option linter.unusedVariables false in
+include hnb hA hD in
+/-- a leaf with the certificate of the first leaf (not of the best): back-jump against `flPath` -/
+theorem dfs_leaf_eqfirst (lv : List (Nat × Nat)) (s s1 : LS) (gh : Gh) (hI : MInv n m nb s)
+    (hlv : LevelsOK s.op s.path s.choices lv) (hleaf : s.op.binDividers.len = n)
+    (hJ : CertM n m nb lv false s) (h : DNodev n nb rf r gh lv s) (hs1 : leafNode n m s = .ok s1)
+    (hJ1 : CertA n m nb lv s1)
+    (hc1 : (compare s.op.value.toList s.currentBest.toList == 1 || s.count + 1 == 1) = false)
+    (hc0 : (compare s.op.value.toList s.currentBest.toList == 0) = false)
+    (hcf : (compare s.op.value.toList s.firstLeaf.toList == 0) = true) :
+    ∃ lv1, LevelsOK s1.op s1.path s1.choices lv1 ∧ DA n nb rf r lv1 s1 := by
+  obtain ⟨lv1, k, a, b, _⟩ := dfs_leaf_eqfirst_v hnb hA hD lv s s1 gh hI hlv hleaf hJ h hs1 hJ1 hc1 hc0 hcf
+  exact ⟨lv1, a, _, b⟩
 end
 
 end CanonF
